@@ -65,6 +65,59 @@ def run(tier, seed):
                               numeric="float", loss_offset=2 ** 30, seed=rng.randrange(2 ** 31)))
     traces2, kept, fails2 = E.validate(ctx, scs, lambda clause, t, c: clause == "efficiency" or clause.split(".")[0] in ("sage", "pfi"),
                                        "float explainer runs with losses 2^30 + delta (exact doubles) validated exactly")
+    # long streams (the bounded TLC clauses above stop at n = 32): the property's three bounds evaluated in exact rational
+    # arithmetic on streams of 10^3 .. 10^5 values, magnitudes 1e-8 .. 1e8, offsets up to 1e9 times the spread, five orderings
+    # (float-level check: C = 4 against a measured worst case of 0.03 units on the unchanged code)
+    import math
+    from fractions import Fraction
+    u = 2.0 ** -53
+    CL = 4
+    nlong = 0
+    for n in ((1000, 3000) if quick else (1000, 10 ** 4, 10 ** 5)):
+        for name in ("random", "sorted", "alternating", "jump", "offset9"):
+            for mag in (1e-8, 1.0, 1e8):
+                spread = [rng.uniform(-1, 1) for _ in range(n)]
+                off = 1e9 if name == "offset9" else 10.0
+                vals = [mag * (off + s_) for s_ in spread]
+                if name == "sorted":
+                    vals.sort()
+                elif name == "alternating":
+                    vals = [v if i % 2 else -v for i, v in enumerate(vals)]
+                elif name == "jump":
+                    vals = [mag * off] * (n // 2) + vals[n // 2:]
+                w, e = WelfordTracker(), ExponentialSmoothingTracker(alpha=2.0 ** -10)
+                S = S2 = es = Fraction(0)
+                a = Fraction(1, 1024)
+                for v in vals:
+                    w.update(v)
+                    e.update(v)
+                    fv = Fraction(v)
+                    S += fv
+                    S2 += fv * fv
+                    es = (1 - a) * es + a * fv
+                mean, mx = S / n, max(abs(v) for v in vals)
+                var = S2 / n - mean * mean
+                gm, gv, gs, ge = float(w.mean), float(w.var), float(w.std), float(e.get())
+                probs = []
+                if not all(map(math.isfinite, (gm, gv, gs, ge))):
+                    probs.append("non-finite result %r" % ((gm, gv, gs, ge),))
+                else:
+                    if abs(Fraction(gm) - mean) > Fraction(CL * n * u * mx):
+                        probs.append("mean %r vs exact %r, bound %.3g" % (gm, float(mean), CL * n * u * mx))
+                    if var > 0:
+                        kappa = math.sqrt(1 + float(mean * mean / var))
+                        if abs(Fraction(gv) - var) > var * Fraction(CL * n * u * kappa):
+                            probs.append("variance %r vs exact %r, relative bound %.3g" % (gv, float(var), CL * n * u * kappa))
+                    elif gv != 0:
+                        probs.append("variance %r of a constant stream" % gv)
+                    if abs(Fraction(ge) - es) > Fraction(CL * u * mx * 1024):
+                        probs.append("smoothed value %r vs exact %r, bound %.3g" % (ge, float(es), CL * u * mx * 1024))
+                nlong += 1
+                ctx.count_clause("float.long_stream")
+                for pmsg in probs[:1]:
+                    ctx.violation("float.long_stream", "n=%d ordering=%s magnitude=%g" % (n, name, mag), pmsg, {"n": n, "ordering": name, "mag": mag})
+    ctx.add_stage("long float streams against exact rational arithmetic (Welford mean / variance, smoothing)", "float_twin", streams=nlong)
+    ctx.evaluations += nlong
     # the third tracker: a sliding window on ill-conditioned streams keeps nothing of the values that left it - its mean is
     # within a small multiple of k*eps*max|v in the window| of the exact mean of the last k values (float-level check; the
     # window semantics themselves are C11's)
@@ -96,7 +149,8 @@ def run(tier, seed):
                 ctx.violation("float.sliding_window_mean", "k=%d stream=%s" % (k, name), "after %d values the reported mean %r differs from "
                               "the exact mean of the window %r by more than 16*k*eps*max|v| = %.3g" % worst, {"k": k, "stream": name})
     ctx.add_stage("SlidingWindowTracker mean on spike / offset / jump streams against the exact window mean", "float_twin", runs=nsw)
-    ctx.assume("claimed at reduced scope: kappa-ill-conditioned streams of n <= 32 values, magnitudes 2^-28..2^27, five orderings; the "
-               "growth of the error over 10^4..10^6 values is not evaluated (TLC has no floats and 32-bit integers)")
+    ctx.assume("the TLC clauses cover kappa-ill-conditioned streams of n <= 32 values, magnitudes 2^-28..2^27, five orderings (TLC has "
+               "no floats and 32-bit integers); streams of 10^3..10^5 values are compared with exact rational arithmetic at the "
+               "float level (C = 4); 10^6 values are not run")
     ctx.assume("C = 8 against a measured worst case of 0.25 (Welford) / 0.67 (smoothing) units")
     return ctx.finish()
